@@ -72,8 +72,9 @@ fn on_free(ptr: usize, size: usize) {
 }
 
 unsafe impl GlobalAlloc for HookAlloc {
-    unsafe fn alloc(&self, l: Layout) -> *mut u8 { unsafe { System.alloc(l) } }
-    unsafe fn alloc_zeroed(&self, l: Layout) -> *mut u8 { unsafe { System.alloc_zeroed(l) } }
+    // crate::falloc: a thread can arm the allocator to refuse its next allocation(s) of one exact size (heap fault injection)
+    unsafe fn alloc(&self, l: Layout) -> *mut u8 { if crate::falloc::refuse(l.size()) { return std::ptr::null_mut(); } unsafe { System.alloc(l) } }
+    unsafe fn alloc_zeroed(&self, l: Layout) -> *mut u8 { if crate::falloc::refuse(l.size()) { return std::ptr::null_mut(); } unsafe { System.alloc_zeroed(l) } }
     unsafe fn dealloc(&self, p: *mut u8, l: Layout) { on_free(p as usize, l.size()); unsafe { System.dealloc(p, l) } }
     unsafe fn realloc(&self, p: *mut u8, l: Layout, n: usize) -> *mut u8 { on_free(p as usize, l.size()); unsafe { System.realloc(p, l, n) } }
 }
